@@ -42,7 +42,7 @@ class C19(Check):
               "same key; the cache directory is created before any worker runs",
         "D3": "every public scan / Monte-Carlo entry that accepts a cache forwards it to parallelise",
     }
-    floors = {"D1": 1, "D2": 4, "D3": 4}
+    floors = {"D1": 1, "D2": 5, "D3": 4}
     decided = [
         "a kill at any instant of a result write cannot leave a truncated file under a name the rerun trusts",
         "cached and uncached runs return the same (key, value) pairs; the rerun reads what the first run saved",
@@ -72,6 +72,7 @@ class C19(Check):
         direct = [(p, c) for p, c in opens if norm(p) == final]
         # atomic: written path is a local derived name, later replaced onto `final`
         atomic = False
+        early_publish = None
         for p, c in opens:
             if isinstance(p, ast.Name) and p.id != final:
                 tmp = p.id
@@ -87,6 +88,8 @@ class C19(Check):
                                 wi = [j for j, t in enumerate(body) if any(y is c for y in ast.walk(t))]
                                 if wi and i > wi[0]:
                                     atomic = True
+                                elif wi and i == wi[0]:
+                                    early_publish = x
         # protected load: the load call in _load_or_run sits in a try that handles read errors and falls through
         protected = False
         sc = Scope(lor)
@@ -99,7 +102,12 @@ class C19(Check):
                         if any(n in LOAD_ERRORS for n in names) and not any(isinstance(y, ast.Raise) for y in ast.walk(h)):
                             protected = True
         cons = "publish-vs-load"
-        if direct and not atomic and not protected:
+        if early_publish is not None and not atomic and not protected:
+            self.violated("D1", MOD, save.name, cons, early_publish,
+                          f"`{norm(early_publish)}` publishes the temporary file under the final name while it is still open for writing (inside the with-block): "
+                          "a crash after the rename but before the close/flush leaves an empty or truncated file under the trusted name",
+                          witness="kill the process right after os.replace in _pickle_save: the rerun loads a truncated <key>.p -> EOFError")
+        elif direct and not atomic and not protected:
             self.violated(
                 "D1", MOD, save.name, cons, direct[0][1],
                 f"`{norm(direct[0][1])}` writes the result straight into the final path, and `_load_or_run` treats mere existence "
@@ -158,6 +166,14 @@ class C19(Check):
         else:
             self.violated("D2", MOD, "parallelise", "mkdir-before-workers", par, "cache directory is not created before workers save into it",
                           witness="first cached run fails with FileNotFoundError in every worker")
+        outside = [(n, c) for n, f in mod.functions.items() if n != "_load_or_run" and "." not in n for c in walk_no_nested(f)
+                   if isinstance(c, ast.Call) and norm(c.func).endswith(("load_fn", "save_fn")) and not n.startswith("_pickle")]
+        if outside:
+            self.violated("D2", MOD, outside[0][0], "cache-access-only-in-worker", outside[0][1],
+                          f"`{norm(outside[0][1])[:60]}` reads/writes cached results outside the per-input worker: hits and misses are no longer produced by one code path in input order",
+                          witness="a partially filled cache changes the order / content of the returned list")
+        else:
+            self.holds("D2", MOD, "parallelise", "cache-access-only-in-worker", par, "cached results are loaded and saved only inside _load_or_run, per input")
         # ---- D3
         for rel in ("scan.py", "mc.py"):
             m2 = self.prog.module(rel)
@@ -184,6 +200,9 @@ class C19(Check):
             Variant("reintroduce-direct-write", MOD, "_pickle_save",
                     "    tmp = file.with_name(f'{file.name}.{os.getpid()}.tmp')\n    with tmp.open('wb') as fp:\n        pickle.dump(data, fp)\n    tmp.replace(file)",
                     "    with file.open('wb') as fp:\n        pickle.dump(data, fp)", expect="D1|", quick=True),
+            Variant("publish-inside-with", MOD, "_pickle_save", "    with tmp.open('wb') as fp:\n        pickle.dump(data, fp)\n    tmp.replace(file)", "    with tmp.open('wb') as fp:\n        pickle.dump(data, fp)\n        tmp.replace(file)", expect="D1|", quick=True),
+            Variant("hits-loaded-up-front", MOD, "parallelise", "    if cache is not None:\n        cache.tmp_dir.mkdir(parents=True, exist_ok=True)\n",
+                    "    pre = []\n    if cache is not None:\n        cache.tmp_dir.mkdir(parents=True, exist_ok=True)\n        pre = [(k, cache.load_fn(cache.tmp_dir / cache.name_fn(k))) for k, _ in inputs if (cache.tmp_dir / cache.name_fn(k)).exists()]\n", expect="D2|"),
             Variant("return-uncomputed", MOD, "_load_or_run", "    return (k, res)", "    return (k, v)", expect="D2|", quick=True),
             Variant("save-under-other-path", MOD, "_load_or_run", "cache.save_fn(file, res)", "cache.save_fn(cache.tmp_dir / str(k), res)", expect="D2|"),
             Variant("no-mkdir", MOD, "parallelise", "    if cache is not None:\n        cache.tmp_dir.mkdir(parents=True, exist_ok=True)\n", "", expect="D2|"),
